@@ -10,7 +10,8 @@ Extracted (each by whitelisting AST node shapes; anything else is reported throu
   * `mirror`          the four statements that build `_contour_points`
   * `checks`          the `self.test_*()` calls at the end of `__init__` and the bodies of those methods
   * `factory`         `create_groove_by_type_name`: regex, replacement, title(), suffix rule, exact-name lookup
-  * `spline_checks`   the shape checks at the top of `SplineGroove.__init__`
+  * `spline_checks`   the shape checks at the top of `SplineGroove.__init__` + `spline_face`, the face test they use
+                      (`np.isclose(y, 0)` or `np.abs(y) <= <tolerance term>`, whichever form the source has)
   * `signatures`      per public class: parameters of `__init__` (required?), which are converted with deg2rad
 """
 import ast
@@ -524,29 +525,232 @@ def extract_factory(repo=None, gaps=None):
 # ---------------------------------------------------------------------------------------------------------
 # SplineGroove.__init__ shape checks
 # ---------------------------------------------------------------------------------------------------------
+# The third shape check asks whether the first and the last ordinate lie on the face line y = 0.  The FACE TEST `F(y)` is
+# read from whichever of the two forms the source has (-> `FaceTest` of the model, `Gen.C03.splineFace`):
+#   np.isclose(<y>, 0)                    -> ("isclose",)         numpy's defaults, absolute 1e-8
+#   np.abs(<y>) <= <tolerance term>       -> ("within", FTerm)    tolerance = a term over the array as given, inline or
+#                                                                 through a local bound before the check
+#   <mask>[0] / <mask>[-1] / <mask>       with `<mask> = F(contour_points[:, 1])` bound before -> the test of the mask
+# Every face test of `__init__` (validation of the ends, boundary stripping, masks) must be the same one; `<`, keyword
+# tolerances of `np.isclose`, tolerance terms outside the subset below are reported as gaps.
+_ORD_SEL = {"contour_points[0, 1]": "0", "contour_points[-1, 1]": "-1", "contour_points[:, 1]": ":",
+            "np.roll(contour_points[:, 1], 1)": "roll", "np.roll(contour_points[:, 1], -1)": "roll"}
+
+
+def _np_call(n, *names):
+    return isinstance(n, ast.Call) and (pyexpr.attr_path(n.func) or [None, None])[0] in ("np", "numpy") \
+        and len(pyexpr.attr_path(n.func)) == 2 and pyexpr.attr_path(n.func)[1] in names
+
+
+def _ord_sel(n):
+    for src, sel in _ORD_SEL.items():
+        if _same(n, src):
+            return sel
+    return None
+
+
+def _column(n):
+    """`contour_points[:, k]` -> k"""
+    for k in (0, 1):
+        if _same(n, f"contour_points[:, {k}]"):
+            return k
+    return None
+
+
+class _FTr:
+    """tolerance terms over the columns of the local array `contour_points` (-> `FTerm` of the model)"""
+
+    def __init__(self):
+        self.locals = {}          # name -> term
+        self.failed = {}          # name -> why its right-hand side is no term
+        self.read = set()
+
+    def tr(self, n):
+        if isinstance(n, ast.Constant) and not isinstance(n.value, bool) and isinstance(n.value, (int, float)) and n.value >= 0:
+            c = pyexpr.const(n.value)                      # ("nat", m) | ("dec", m, e) = m * 10^-e
+            if c[0] in ("nat", "dec"):
+                return c
+        if _np_call(n, "ptp") and len(n.args) == 1 and not n.keywords and _column(n.args[0]) is not None:
+            k = _column(n.args[0])
+            return ("sub", ("colMax", k), ("colMin", k))   # np.ptp = max - min
+        if _np_call(n, "max", "amax") and len(n.args) == 1 and not n.keywords \
+                and _same(n.args[0], "np.ptp(contour_points, axis=0)"):
+            # the larger of the two column extents of the (n, 2) array
+            return ("max", ("sub", ("colMax", 0), ("colMin", 0)), ("sub", ("colMax", 1), ("colMin", 1)))
+        for names, tag in ((("min", "amin"), "colMin"), (("max", "amax"), "colMax")):
+            if _np_call(n, *names) and len(n.args) == 1 and not n.keywords and _column(n.args[0]) is not None:
+                return (tag, _column(n.args[0]))
+        if isinstance(n, ast.BinOp):
+            ops = {ast.Add: "add", ast.Sub: "sub", ast.Mult: "mul", ast.Div: "div"}
+            if type(n.op) in ops:
+                return (ops[type(n.op)], self.tr(n.left), self.tr(n.right))
+        if isinstance(n, ast.Name):
+            if n.id in self.locals:
+                self.read.add(n.id)
+                return self.locals[n.id]
+            if n.id in self.failed:
+                raise Untranslatable(f"tolerance local `{n.id}`: {self.failed[n.id]}")
+            raise Untranslatable(f"tolerance reads `{n.id}`, which is not bound before the face test")
+        raise Untranslatable(f"tolerance term `{ast.unparse(n)[:60]}` outside the subset")
+
+
+def lean_fterm(e):
+    k = e[0]
+    if k in ("nat", "colMin", "colMax"):
+        return f"(.{k} {e[1]})"
+    if k == "dec":
+        return f"(.dec {e[1]} {e[2]})"
+    return f"(.{k} {lean_fterm(e[1])} {lean_fterm(e[2])})"
+
+
+def lean_face(ft):
+    return ".isclose" if ft[0] == "isclose" else f"(.within {lean_fterm(ft[1])})"
+
+
+class _FaceReader:
+    def __init__(self, ftr):
+        self.ftr = ftr
+        self.masks = {}           # local name -> face test of `F(contour_points[:, 1])`
+
+    def test(self, n):
+        """-> (face test, selection) if `n` is a face test applied to a selection of the ordinates, else None;
+        raises Untranslatable if `n` looks like one but is outside the subset"""
+        if _np_call(n, "isclose"):
+            sels = [_ord_sel(a) for a in n.args]
+            if any(sels):
+                if len(n.args) == 2 and not n.keywords and sels[0] and _same(n.args[1], "0"):
+                    return ("isclose",), sels[0]
+                raise Untranslatable(f"face test `{ast.unparse(n)[:70]}` is not `np.isclose(<ordinates>, 0)` with numpy's defaults")
+            return None
+        if isinstance(n, ast.Compare):
+            operands = [n.left] + list(n.comparators)
+            hit = [o for o in operands if _np_call(o, "abs", "absolute", "fabs") and o.args and _ord_sel(o.args[0])]
+            if hit:
+                if len(n.ops) == 1 and isinstance(n.ops[0], ast.LtE) and hit == [n.left] and _np_call(n.left, "abs") \
+                        and len(n.left.args) == 1 and not n.left.keywords:
+                    return ("within", self.ftr.tr(n.comparators[0])), _ord_sel(n.left.args[0])
+                raise Untranslatable(f"face test `{ast.unparse(n)[:70]}` is not `np.abs(<ordinates>) <= <tolerance>`")
+            return None
+        if isinstance(n, ast.Name) and n.id in self.masks:
+            return self.masks[n.id], ":"
+        if isinstance(n, ast.Subscript) and isinstance(n.value, ast.Name) and n.value.id in self.masks:
+            if ast.unparse(n.slice) in ("0", "-1"):
+                return self.masks[n.value.id], ast.unparse(n.slice)
+            raise Untranslatable(f"selection `{ast.unparse(n)[:40]}` of the face mask")
+        return None
+
+
 def extract_spline_checks(repo=None, gaps=None):
+    """-> (shape checks in source order, face test ("isclose",) | ("within", FTerm))"""
     gaps = gaps if gaps is not None else []
     tree = _parse("spline.py", repo)
     cls = next(n for n in tree.body if isinstance(n, ast.ClassDef) and n.name == "SplineGroove")
     init = next(n for n in cls.body if isinstance(n, ast.FunctionDef) and n.name == "__init__")
     out = []
+    ftr = _FTr()
+    face = _FaceReader(ftr)
+    faces = []                    # (face test, where) of every face test met in __init__
+    ends = None
+    given = True                  # the local name `contour_points` still is the array as given (after np.asarray)
+    seen_asarray = False
+
+    def scan(node, where, skip=()):
+        """every face test inside `node` (other than the sub-nodes in `skip`, which the caller has read itself)"""
+        for sub in ast.walk(node):
+            if any(sub is k for k in skip):
+                continue
+            if isinstance(sub, ast.Name) and sub.id in face.masks and isinstance(sub.ctx, ast.Load):
+                faces.append((face.masks[sub.id], where))
+                continue
+            if not isinstance(sub, (ast.Call, ast.Compare)):
+                continue
+            try:
+                ft = face.test(sub)
+            except Untranslatable as ex:
+                gaps.append(f"SplineGroove.__init__: {ex}")
+                continue
+            if ft is not None:
+                if ft[0][0] == "within" and not given:
+                    gaps.append(f"SplineGroove.__init__: face tolerance in `{ast.unparse(sub)[:70]}` is computed after "
+                                f"`contour_points` was re-bound (not from the array as given)")
+                faces.append((ft[0], where))
+
     for st in init.body:
-        if not (isinstance(st, ast.If) and len(st.body) == 1 and isinstance(st.body[0], ast.Raise) and not st.orelse):
+        if isinstance(st, ast.Expr) and isinstance(st.value, ast.Constant):
             continue
-        t = st.test
-        if isinstance(t, ast.Compare) and len(t.ops) == 1 and isinstance(t.ops[0], ast.NotEq) \
-                and isinstance(t.comparators[0], ast.Constant):
-            if _same(t.left, "contour_points.ndim"):
-                out.append(("ndim", t.comparators[0].value))
-                continue
-            if _same(t.left, "contour_points.shape[1]"):
-                out.append(("cols", t.comparators[0].value))
-                continue
-        if _same(t, "not np.isclose(contour_points[0, 1], 0) or not np.isclose(contour_points[-1, 1], 0)"):
-            out.append(("endsOnFace",))
+        if _same(st, "contour_points = np.asarray(contour_points, dtype='float64')") and not seen_asarray:
+            seen_asarray = True
             continue
-        gaps.append(f"SplineGroove.__init__: check outside the subset: {ast.unparse(t)[:90]}")
-    return out
+        # --- locals: `<mask> = F(contour_points[:, 1])`, `<name> = <tolerance term>`
+        if isinstance(st, ast.Assign) and len(st.targets) == 1 and isinstance(st.targets[0], ast.Name) \
+                and st.targets[0].id != "contour_points":
+            name = st.targets[0].id
+            try:
+                ft = face.test(st.value)
+            except Untranslatable as ex:
+                gaps.append(f"SplineGroove.__init__: {ex}")
+                continue
+            if ft is not None and ft[1] == ":":
+                if not given or not seen_asarray:
+                    gaps.append(f"SplineGroove.__init__: face mask `{name}` is not computed from the array as given")
+                face.masks[name] = ft[0]
+                faces.append((ft[0], f"mask {name}"))
+                continue
+            if ends is None and given and seen_asarray:
+                try:
+                    ftr.locals[name] = ftr.tr(st.value)
+                    ftr.failed.pop(name, None)
+                    continue
+                except Untranslatable as ex:
+                    ftr.locals.pop(name, None)
+                    ftr.failed[name] = str(ex)
+            scan(st, f"`{ast.unparse(st)[:50]}`")
+            continue
+        if isinstance(st, ast.If) and len(st.body) == 1 and isinstance(st.body[0], ast.Raise) and not st.orelse:
+            t = st.test
+            if isinstance(t, ast.Compare) and len(t.ops) == 1 and isinstance(t.ops[0], ast.NotEq) \
+                    and isinstance(t.comparators[0], ast.Constant):
+                if _same(t.left, "contour_points.ndim"):
+                    out.append(("ndim", t.comparators[0].value))
+                    continue
+                if _same(t.left, "contour_points.shape[1]"):
+                    out.append(("cols", t.comparators[0].value))
+                    continue
+            # `if not F(cp[0, 1]) or not F(cp[-1, 1]): raise`
+            if isinstance(t, ast.BoolOp) and isinstance(t.op, ast.Or) and len(t.values) == 2 \
+                    and all(isinstance(v, ast.UnaryOp) and isinstance(v.op, ast.Not) for v in t.values):
+                try:
+                    fa, fb = (face.test(v.operand) for v in t.values)
+                except Untranslatable as ex:
+                    gaps.append(f"SplineGroove.__init__: {ex}")
+                    continue
+                if fa and fb and fa[1] == "0" and fb[1] == "-1" and ends is None:
+                    if not given or not seen_asarray:
+                        gaps.append("SplineGroove.__init__: the end ordinates are tested after `contour_points` was re-bound")
+                    if fa[0] != fb[0]:
+                        gaps.append("SplineGroove.__init__: first and last ordinate are tested with different face tests: "
+                                    f"{lean_face(fa[0])} / {lean_face(fb[0])}")
+                    ends = fa[0]
+                    faces += [(fa[0], "validation of the end ordinates"), (fb[0], "validation of the end ordinates")]
+                    out.append(("endsOnFace",))
+                    continue
+            gaps.append(f"SplineGroove.__init__: check outside the subset: {ast.unparse(t)[:90]}")
+            continue
+        scan(st, f"`{ast.unparse(st)[:50]}`")
+        if any(isinstance(tg, ast.Name) and tg.id == "contour_points" for sub in ast.walk(st) if isinstance(sub, ast.Assign)
+               for tg in sub.targets):
+            given = False
+    if ends is None:
+        gaps.append("SplineGroove.__init__: the validation of the end ordinates was not found")
+        return out, ("isclose",)          # well-formed placeholder; the gap above breaks the tie
+    other = sorted({f"{lean_face(f)} in {w}" for f, w in faces if f != ends and w != "validation of the end ordinates"})
+    if other:
+        gaps.append("SplineGroove.__init__: mixed face tests: the end ordinates are validated with "
+                    f"{lean_face(ends)}, but {'; '.join(other)}")
+    if ends[0] == "within":
+        for name in sorted(set(ftr.locals) - ftr.read):
+            gaps.append(f"SplineGroove.__init__: local `{name}` is bound before the face test but not read by it")
+    return out, ends
 
 
 # ---------------------------------------------------------------------------------------------------------
@@ -644,7 +848,7 @@ def extract_all(repo=None):
         arity=[n.lineno for n in ast.walk(tri) if isinstance(n, ast.Raise)] if tri is not None else [],
         init=(init.lineno, init.end_lineno))
     found["factory"] = extract_factory(repo, gaps)
-    found["spline"] = extract_spline_checks(repo, gaps)
+    found["spline"], found["spline_face"] = extract_spline_checks(repo, gaps)
     found["signatures"] = extract_signatures(repo, gaps)
     found["classes"] = exported_classes(repo)
     # every name a piece refers to must exist
@@ -728,6 +932,9 @@ def emit(ctx, pid="C03", repo=None):
     L.append("")
     L.append("/-- the groove classes exported by `pyroll.core.grooves` (first lookup table of the factory) -/")
     L.append("def classes : List String := [" + ", ".join(s(c) for c in f["classes"]) + "]")
+    L.append("")
+    L.append("/-- how `SplineGroove.__init__` decides that an ordinate lies on the face line (read from the source) -/")
+    L.append("def splineFace : FaceTest := " + lean_face(f["spline_face"]))
     L.append("")
     L.append("def splineChecks : List SplineCheck := [" + ", ".join(
         "." + c[0] + ("" if len(c) == 1 else f" {c[1]}") for c in f["spline"]) + "]")
